@@ -10,12 +10,21 @@ modules (serializable, connection, crypto) are counted per input and a budget of
 20 000 + 60 per input byte line-steps raises inside the running code (a decoder that
 loops without consuming input exceeds it; the worst input on the unchanged tree uses a
 few percent).  The shard's wall-clock watchdog stays inconclusive, never a verdict.
+A fourth logical meter counts COMPARISONS: sys.monitoring PY_START events on the rich
+comparison methods (__eq__, __ne__, __lt__, ...) the decoder modules and the registered
+classes define, plus the __eq__ of the workload's own value-comparing user class; more
+than 4096 + 8 per input byte comparisons during one decode raises inside the running
+code (a decoder that looks members up linearly does n*n/2 of them inside one C call:
+no extra lines, no extra memory, no extra reads).
 
 Inputs: random bytes; every truncation and many bit flips of a corpus of valid
 encodings and of real client-hello / server-hello / challenge messages; every
 registered type id x random bodies; declared lengths 0, max, max+1, 2^31-1, 2^63-1,
 negative, non-integer for str / bytes / seq / map / set in every integer width; nesting
-to depth 50 000; unhashable keys; also through the real
+to depth 50 000; unhashable keys; sets / map key sets / several sets in one body with
+hundreds to 16384 distinct COMPOSITE members (enum members of every registered enum
+class, tuples, tuples of enum members, nested tuples, objects of a user class with
+value equality, each member also sent twice); also through the real
 ServerClientConnection._recvClientHello / _recvChallengeResponse, the client's
 _recvServerHello and Request.message().
 """
@@ -140,6 +149,16 @@ class StepBudgetExceeded(BaseException):
     """raised from the LINE-event callback: the decoder executed far more lines than the input can justify"""
 
 
+class CompareBudgetExceeded(BaseException):
+    """raised from the PY_START callback of a comparison method (or from the workload's own __eq__): the decoder compared
+    members far more often than the input can justify"""
+
+
+CMP_NAMES = ("__eq__", "__ne__", "__lt__", "__le__", "__gt__", "__ge__")
+CMP_BASE = 4096
+CMP_PER_BYTE = 8
+
+
 class StepMeter(object):
     """sys.monitoring LINE events on the code objects of the decoder modules: a *logical* step count per input.
     'Never hangs' is decided on steps, not on wall-clock: exceeding the budget raises inside the running code."""
@@ -155,7 +174,10 @@ class StepMeter(object):
         self.mon = sys.monitoring
         self.steps = 0
         self.budget = 1 << 60
+        self.compares = 0
+        self.cmp_budget = 1 << 60
         self.codes = []
+        self.cmp_codes = []
         seen = set()
 
         def add_code(co):
@@ -191,14 +213,42 @@ class StepMeter(object):
         self.mon.register_callback(self.TOOL, self.mon.events.LINE, on_line)
         for co in self.codes:
             self.mon.set_local_events(self.TOOL, co, self.mon.events.LINE)
+        # comparison meter: the rich comparison methods written in Python by the decoder modules' classes and by every class
+        # registered so far (the C-level `in` / set / dict lookups call them: one PY_START event per comparison)
+        cmp_seen = set()
+        owners = [v for mod in (S, C, K) for v in list(vars(mod).values()) if isinstance(v, type) and getattr(v, "__module__", None) == mod.__name__]
+        owners += [v for v in list(S.SerializableType.registry.values()) if isinstance(v, type)]
+        for cls_ in owners:
+            for k in cls_.__mro__:
+                if k is object:
+                    continue
+                for nm in CMP_NAMES:
+                    f = vars(k).get(nm)
+                    if isinstance(f, types.FunctionType) and id(f.__code__) not in cmp_seen:
+                        cmp_seen.add(id(f.__code__))
+                        self.cmp_codes.append(f.__code__)
+
+        def on_start(code, offset):
+            meter.tick_compare()
+        self.mon.register_callback(self.TOOL, self.mon.events.PY_START, on_start)
+        for co in self.cmp_codes:
+            ev = self.mon.events.LINE if id(co) in seen else 0
+            self.mon.set_local_events(self.TOOL, co, ev | self.mon.events.PY_START)
+
+    def tick_compare(self):
+        self.compares += 1
+        if self.compares > self.cmp_budget:
+            self.cmp_budget = 1 << 60          # raise once
+            raise CompareBudgetExceeded(self.compares)
 
     def undo(self):
-        for co in self.codes:
+        for co in self.codes + self.cmp_codes:
             try:
                 self.mon.set_local_events(self.TOOL, co, 0)
             except Exception:
                 pass
         self.mon.register_callback(self.TOOL, self.mon.events.LINE, None)
+        self.mon.register_callback(self.TOOL, self.mon.events.PY_START, None)
         self.mon.free_tool_id(self.TOOL)
 
 
@@ -373,6 +423,10 @@ def run_shard(cfg):
         reads.bytes_out = 0
         steps.steps = 0
         steps.budget = STEP_BASE + STEP_PER_BYTE * len(b)
+        steps.compares = 0
+        cmp_limit = CMP_BASE + CMP_PER_BYTE * len(b)
+        steps.cmp_budget = cmp_limit
+        cmp_reported = False
         tracemalloc.clear_traces()
         base = tracemalloc.get_traced_memory()[0]
         tracemalloc.reset_peak()
@@ -392,11 +446,25 @@ def run_shard(cfg):
             viol("hangs-or-iterates-beyond-input", "%s input of %d bytes (%s): more than %d decoder line-steps executed (budget %d + %d per byte) - "
                  "the decoder loops without being bounded by its input" % (label, len(b), via, steps.steps, STEP_BASE, STEP_PER_BYTE),
                  {"input": b[:64].hex(), "label": label, "via": via, "length": len(b)})
+        except CompareBudgetExceeded as e:
+            exc = e
+            cmp_reported = True
+            viol("compares-beyond-input", "%s input of %d bytes (%s): more than %d comparisons of decoded members/keys (budget %d + %d per byte) during one "
+                 "decode - the decoder finds members/keys by comparing them with one another (a linear lookup, or hashing that does not separate "
+                 "them): work that grows with the square of the declared length" % (label, len(b), via, steps.compares - 1, CMP_BASE, CMP_PER_BYTE),
+                 {"input": b[:64].hex(), "label": label, "via": via, "length": len(b)})
         except BaseException as e:
             exc = e
             viol("base-exception", "%s input of %d bytes raised %r (not an ordinary Exception)" % (label, len(b), e), {"input": b[:64].hex(), "label": label})
         steps.budget = 1 << 60
+        steps.cmp_budget = 1 << 60
         dt = time.perf_counter() - t0
+        if steps.compares > cmp_limit and not cmp_reported:
+            # the decoder swallowed the meter's exception: the count still stands
+            viol("compares-beyond-input", "%s input of %d bytes (%s): %d comparisons of decoded members/keys during one decode (budget %d + %d per byte)" % (
+                label, len(b), via, steps.compares, CMP_BASE, CMP_PER_BYTE), {"input": b[:64].hex(), "label": label, "via": via, "length": len(b)})
+        worst["cmp"] = max(worst.get("cmp", 0.0), steps.compares / float(cmp_limit))
+        c.inc("comparisons_metered", steps.compares)
         worst["steps"] = max(worst["steps"], steps.steps / float(STEP_BASE + STEP_PER_BYTE * len(b)))
         c.inc("decoder_line_steps", steps.steps)
         peak = tracemalloc.get_traced_memory()[1] - base
@@ -471,6 +539,100 @@ def run_shard(cfg):
                 st = BytesIO()
                 S.serialize_value(st, {o: None for o in objs})
                 attacks.append(("many-objects:map-keys-%d" % n_obj, st.getvalue()))
+        # many distinct COMPOSITE members in ONE set / as the keys of ONE map / in several sets of one body: enum members of every
+        # kind of registered enum class (a decoded enum member holds whatever value the peer sent), tuples, tuples of enum members,
+        # nested tuples, objects of a user class that defines value equality (__eq__/__hash__ over its field).  All members are
+        # distinct (and hash differently), so building the collection needs next to no comparisons; the "-twice" variants send
+        # every member twice (one comparison per duplicate: the positive control of the comparison meter).  Cost is judged by the
+        # comparison meter, the line-step budget and the other bounds like every other input
+        composite = []
+        sm = steps
+
+        def _veq(self, other):
+            sm.tick_compare()
+            return type(other) is type(self) and self.n == other.n
+
+        ValueObj = type("C14ValueObj%dx%d" % (cfg["seed"], cfg["shard"]), (S.Serializable,), {
+            "__annotations__": {"n": int}, "n": 0, "__eq__": _veq, "__hash__": lambda self: hash(self.n)})
+        OwnEnum = type("C14Enum%dx%d" % (cfg["seed"], cfg["shard"]), (S.SerializableEnum,), {"FIRST": 0, "SECOND": 1, "THIRD": 2})
+        registry_classes.update((ValueObj, OwnEnum))
+        other_enums = list(enums) + [k for _t, k in sorted(S.SerializableType.registry.items())
+                                     if isinstance(k, type) and issubclass(k, S.SerializableEnum) and k is not OwnEnum and k not in enums]
+        OtherEnum = r.choice(other_enums) if other_enums else OwnEnum
+
+        # (encoded by hand: tens of thousands of members through the library's encoder under the meters would cost more than the decodes)
+        def enc(v):
+            if v is None:
+                return struct.pack(">H", 15)
+            if isinstance(v, str):
+                raw = v.encode("utf-8")
+                return struct.pack(">H", 13) + enc(len(raw)) + raw
+            return enc_int("int8" if -128 <= v < 128 else "int16" if -32768 <= v < 32768 else "int32", v)
+
+        def seq_of(parts):
+            return struct.pack(">H", 16) + enc(len(parts)) + b"".join(parts)
+
+        def enum_member(E, k):
+            return struct.pack(">H", E.type_id) + enc(k)
+
+        probe = ValueObj()
+        probe.n = 0x5A6B7C8D
+        st_ = BytesIO()
+        S.serialize_value(st_, probe)
+        vo_template = st_.getvalue().split(struct.pack(">l", probe.n))
+        if len(vo_template) != 2:
+            vo_template = None
+
+        def value_obj(k):
+            if vo_template is not None:
+                return vo_template[0] + struct.pack(">l", k) + vo_template[1]
+            o = ValueObj()
+            o.n = k
+            st_ = BytesIO()
+            S.serialize_value(st_, o)
+            return st_.getvalue()
+
+        member_kinds = [
+            ("enum-int-valued", lambda k: enum_member(OwnEnum, k)),
+            ("enum-int-valued-%s" % OtherEnum.__name__[:12], lambda k: enum_member(OtherEnum, k)),
+            ("enum-str-valued", lambda k: enum_member(OtherEnum, "m%d" % k)),
+            ("tuple-of-ints", lambda k: seq_of([enc(k), enc(k ^ 0x5555)])),
+            ("tuple-of-enum-and-int", lambda k: seq_of([enum_member(OtherEnum, k), enc(7)])),
+            ("nested-tuple-of-enum", lambda k: seq_of([seq_of([enum_member(OwnEnum, k)]), enc(None)])),
+            ("value-equal-objects", value_obj),
+            ("tuple-of-value-equal-object", lambda k: seq_of([enc(k % 3), value_obj(k)])),
+        ]
+
+        def set_of(members):
+            return struct.pack(">H", 18) + enc(len(members)) + b"".join(members)
+
+        def map_of(members):
+            return struct.pack(">H", 17) + enc(len(members)) + b"".join(m_ + struct.pack(">H", 15) for m_ in members)
+
+        rot = cfg["shard"] + cfg["seed"]
+        for j_kind, (kind, member) in enumerate(member_kinds):
+            # every kind on every shard with hundreds of members; one kind per shard with thousands; on a quarter of the shards one
+            # kind with the documented maximum count (the kinds rotate over shards and seeds)
+            n_mem = r.choice([600, 800, 1000])
+            base = r.randrange(0, 20000)
+            members = [member(base + k) for k in range(n_mem)]
+            composite.append(("many-members:set-of-%d-%s" % (n_mem, kind), set_of(members)))
+            composite.append(("many-members:map-keys-%d-%s" % (n_mem, kind), map_of(members)))
+            if (j_kind + rot) % 2 == 0:
+                twice = members[:n_mem // 2] * 2
+                r.shuffle(twice)
+                composite.append(("many-members:set-of-%d-%s-twice" % (n_mem, kind), set_of(twice)))
+            if (j_kind + rot) % len(member_kinds) == 1:
+                q = n_mem // 4
+                composite.append(("many-members:4-sets-of-%d-%s" % (q, kind), seq_of([set_of(members[j * q:(j + 1) * q]) for j in range(4)])))
+            if (j_kind + rot) % len(member_kinds) == 0:
+                n_big = r.choice([3000, 4000, 6000])
+                members = [member(base + k) for k in range(n_big)]
+                composite.append(("many-members:set-of-%d-%s" % (n_big, kind), set_of(members)))
+                composite.append(("many-members:map-keys-%d-%s" % (n_big, kind), map_of(members)))
+            if cfg["shard"] % 4 == 2 and (j_kind + rot // 4) % len(member_kinds) == 3:
+                members = [member(base + k) for k in range(S.MAX_ARRAY_LENGTH)]
+                composite.append(("many-members:set-of-%d-%s" % (len(members), kind), set_of(members)))
         # compressed bombs: a few KiB that inflate to many MiB, behind the magic numbers of the usual containers - the decoder reads a
         # type id, it has no business inflating anything
         import gzip
@@ -496,6 +658,13 @@ def run_shard(cfg):
         head = st1.getvalue()[:len(st1.getvalue()) - 2 * n_copies]
         for tid in sorted(S.SerializableType.registry):
             attacks.append(("many-empty-objects:type-%d" % tid, head + (struct.pack(">H", tid) + zero) * n_copies))
+        for label, b in composite:
+            before = c.get("returned", 0)
+            judge(label, b)
+            if c.get("returned", 0) > before:
+                c.inc("many_members_decoded")
+            if "enum-int-valued" in label and len(b) < 12000:
+                judge(label, b, via="request-message")
         for label, b in attacks:
             judge(label, b)
             if label.startswith("bomb") and len(b) < 1400:
@@ -656,6 +825,7 @@ def run_shard(cfg):
             samples.append({"attack_examples": [(l, b[:24].hex()) for l, b in attacks[::37]][:8],
                             "worst_alloc_bytes_per_input_byte": round(worst["ratio"], 1), "worst_activation_ratio": round(worst["act"], 3),
                             "worst_step_budget_fraction": round(worst["steps"], 3),
+                            "worst_compare_budget_fraction": round(worst.get("cmp", 0.0), 3),
                             "worst_read_budget_fraction": round(worst.get("reads", 0.0), 3)})
     finally:
         tracemalloc.stop()
@@ -664,14 +834,15 @@ def run_shard(cfg):
         steps.undo()
     return {"evaluations": c.get("inputs", 0), "distinct": sorted(distinct), "counters": dict(c), "violations": violations, "samples": samples,
             "observations": ["worst peak allocation per input byte: %.1f" % worst["ratio"],
-                             "worst fraction of the line-step budget used by one input: %.3f" % worst["steps"]]}
+                             "worst fraction of the line-step budget used by one input: %.3f" % worst["steps"],
+                             "worst fraction of the comparison budget used by one input: %.3f" % worst.get("cmp", 0.0)]}
 
 
 def finish(tier, seed, results):
     m = merge(results)
     inconclusive = []
     need(m["counters"], ["inputs", "returned", "raised_ordinary_exception", "control_valid_decoded", "inputs_declared-length", "inputs_nested-declared-length", "inputs_deep-nesting-seq",
-                         "inputs_truncation", "inputs_many-objects", "inputs_bomb", "inputs_many-empty-objects", "via_other_stream_kinds", "inputs_bitflip", "inputs_typeid", "inputs_random", "via_client-hello-handler", "via_challenge-handler",
+                         "inputs_truncation", "inputs_many-objects", "inputs_many-members", "many_members_decoded", "comparisons_metered", "inputs_bomb", "inputs_many-empty-objects", "via_other_stream_kinds", "inputs_bitflip", "inputs_typeid", "inputs_random", "via_client-hello-handler", "via_challenge-handler",
                          "via_server-hello-handler", "via_request-message", "decoded_values_inspected", "decoder_line_steps", "post_control_valid_decoded", "post_control_same_value", "post_control_late_classes", "via_load-persistant", "inputs_with_read_meter"], inconclusive)
     if m["counters"].get("watchdog_inconclusive"):
         inconclusive.append("%d inputs exceeded the 60 s wall-clock watchdog" % m["counters"]["watchdog_inconclusive"])
@@ -683,7 +854,8 @@ def finish(tier, seed, results):
         "rule": "one evaluation = one hostile byte string given to Serializable.loadb (or to the real _recvClientHello / "
                 "_recvChallengeResponse / _recvServerHello / Request.message) with an activation counter on deserialize_value and "
                 "tracemalloc around the call. Inputs: declared lengths {0,max,max+1,2^31-1,2^63-1,negative,non-integer} x 5 containers x 7 "
-                "integer widths; nesting to depth 50000; wide collections; unhashable keys; truncations at ~120 positions and bit flips of "
+                "integer widths; nesting to depth 50000; wide collections; unhashable keys; sets / map key sets of 400..16384 distinct composite members "
+                "(enum members, tuples, tuples of enum members, value-equal user objects) under a comparison budget; truncations at ~120 positions and bit flips of "
                 "generated valid encodings and of real handshake messages; every registered type id x random bodies; random bytes. "
                 "distinct = distinct (entry point, input)",
         "samples": m["samples"],
@@ -691,7 +863,10 @@ def finish(tier, seed, results):
         "observations": m["observations"],
     }
     return {"coverage": cov, "inconclusive": inconclusive,
-            "assumptions": ["line-step budget 20000 + 60/byte (LINE events of the decoder modules' code objects)", "bounds: activations <= len/2+1; peak allocation <= 32 KiB + 512 bytes per input byte (sized on the unchanged tree: "
+            "assumptions": ["line-step budget 20000 + 60/byte (LINE events of the decoder modules' code objects)",
+                            "comparison budget 4096 + 8/byte (PY_START events of the rich comparison methods of the decoder modules' and registered classes, "
+                            "and the __eq__ of the workload's value-comparing class); comparisons between tuples of scalars or between objects without "
+                            "a Python-level __eq__ happen inside C and are not metered (such members are sent too, mixed with metered ones)", "bounds: activations <= len/2+1; peak allocation <= 32 KiB + 512 bytes per input byte (sized on the unchanged tree: "
                             "the traceback of the RecursionError for deep nesting costs ~200 bytes per input byte)",
                             "RecursionError is an ordinary exception (caught by the server loop) and is allowed",
                             "the handshake handlers get 64 KiB extra for the key objects of the connection they belong to"]}
